@@ -47,6 +47,10 @@ func runMutants(property, only string, verbose bool) (int, int, []string) {
 	}
 	caught, total := 0, 0
 	var msgs []string
+	knownOpen := map[string]bool{}
+	for _, f := range loadFindings().Open {
+		knownOpen[f.Property+"|"+f.Func+"#"+f.Obligation] = true
+	}
 	for _, m := range ms {
 		if property != "" && m.Property != property {
 			continue
@@ -73,6 +77,9 @@ func runMutants(property, only string, verbose bool) (int, int, []string) {
 		}
 		var failed []string
 		for _, g := range run.groups {
+			if knownOpen[m.Property+"|"+g.Func+"#"+g.Name] {
+				continue // fails on the unchanged tree already (recorded finding): proves nothing about the mutant
+			}
 			if !g.OK && g.Kind != "cover" {
 				failed = append(failed, shortFunc(g.Func)+" # "+g.Name)
 			}
